@@ -40,7 +40,13 @@ def run_config(prog, cfg):
                   {(x["function"], x["key"]): x["reason"] for x in t4.get("r04_3_exceptions", [])})
     for i in r3.insts:
         i.config = cfg
-    return [r1, r04_2(prog, cfg), r3, r04_4(prog, cfg), r04_5(prog, cfg), r04_6(prog, cfg), r04_7(prog, cfg), r04_9(prog, cfg)]
+    # R04.10: the decoder terminates.  Exact rule over every loop reachable from a decoder, free, print or compare slot and
+    # from the decode entry points
+    from . import termination
+    roots = common.slot_functions(prog, common.DECODER_SLOTS + ["free_struct", "print_struct", "compare_struct"]) | \
+        {f.key for f in prog.funcs.values() if not f.static and ("_decode" in f.name or "_fetch_" in f.name or "_skip_" in f.name or "_get_" in f.name)}
+    r10 = termination.rule_for(prog, "R04.10", "the decoders (and the free, print and compare functions)", cg.reachable(roots), 60 if cfg == "default" else 20, cfg)
+    return [r1, r04_2(prog, cfg), r3, r04_4(prog, cfg), r04_5(prog, cfg), r04_6(prog, cfg), r04_7(prog, cfg), r04_9(prog, cfg), r10]
 
 
 def run(ctx):
